@@ -61,6 +61,7 @@ func (m *Migration) Migrate(db *badger.DB) error {
 		if err != nil || !again {
 			return err
 		}
+		simhook.Yield("badger.Migrate.again")
 	}
 }
 
